@@ -10,6 +10,7 @@ importing the files as new generations on top of existing ones, and the time-bou
 which copies whole blocks.
 -/
 import InfluxVerif.Props.C09
+import InfluxVerif.Gen.C18
 
 namespace InfluxVerif.Compact
 open InfluxVerif.Values
@@ -107,9 +108,77 @@ theorem export_keeps_window {α} (blocks : List (List (TV α))) (hs : ∀ b ∈ 
   · have hxt' : x.1 = t := by simpa using hxt
     omega
 
+set_option linter.unusedSimpArgs false
+
+/-! ### time-bounded export: which files are streamed, and how often
+
+`timeStampFilterTarFile` decides per TSM file from the file's time range `[mn, mx]`: a file
+that sticks out of the window is rewritten block by block (`filterFileToBackup`), a file wholly
+inside the window is streamed as it is.  The archive must name each file at most once — Restore
+renames every member to its final name and fails on the second copy — and must name every file
+that touches the window. -/
+
+/-- the "needs filtering" test and the "stream as it is" test are **the source's own**:
+`Gen/C18.lean` is regenerated on every run from the two `if` conditions of
+`timeStampFilterTarFile` (harness/extract/c18.go), so the theorems below are re-proved about
+what the code says now. -/
+theorem gen_translated : Gen.C18.translated = true := rfl
+
+abbrev fileFiltered := Gen.C18.fileFiltered
+abbrev filePlain := Gen.C18.filePlain
+
+/-- the test of the pinned tree -/
+def fileFilteredOld (lo hi mn mx : Int) : Bool :=
+  (mn ≥ lo && mn ≤ hi && mx > hi) || (mx ≥ lo && mx ≤ hi && mn < lo) || (mn ≤ lo && mx ≥ hi)
+
+/-- how many archive members carry the file's name -/
+def fileCopies (lo hi mn mx : Int) : Nat :=
+  (if fileFiltered lo hi mn mx then 1 else 0) + (if filePlain lo hi mn mx then 1 else 0)
+
+/-- **No file is streamed twice**, whatever its range and the window. -/
+theorem export_file_at_most_once (lo hi mn mx : Int) : fileCopies lo hi mn mx ≤ 1 := by
+  unfold fileCopies
+  by_cases hA : fileFiltered lo hi mn mx = true <;> by_cases hB : filePlain lo hi mn mx = true <;>
+    simp only [hA, hB, if_true, if_false, Bool.false_eq_true] <;>
+    simp only [fileFiltered, filePlain, Gen.C18.fileFiltered, Gen.C18.filePlain, Bool.or_eq_true, Bool.not_eq_true', Bool.not_eq_eq_eq_not, Bool.not_true, decide_eq_false_iff_not, Bool.and_eq_true, decide_eq_true_eq] at hA hB <;> omega
+
+/-- **Every file that touches the window is streamed exactly once** (for a well-formed file
+range and window). -/
+theorem export_file_exactly_once (lo hi mn mx : Int) (_hf : mn ≤ mx) (_hw : lo ≤ hi)
+    (touch : mn ≤ hi ∧ lo ≤ mx) : fileCopies lo hi mn mx = 1 := by
+  unfold fileCopies
+  by_cases hA : fileFiltered lo hi mn mx = true <;> by_cases hB : filePlain lo hi mn mx = true <;>
+    simp only [hA, hB, if_true, if_false, Bool.false_eq_true] <;>
+    simp only [fileFiltered, filePlain, Gen.C18.fileFiltered, Gen.C18.filePlain, Bool.or_eq_true, Bool.not_eq_true', Bool.not_eq_eq_eq_not, Bool.not_true, decide_eq_false_iff_not, Bool.and_eq_true, decide_eq_true_eq] at hA hB <;> omega
+
+/-- a file that does not touch the window is left out -/
+theorem export_file_outside (lo hi mn mx : Int) (hf : mn ≤ mx) (hw : lo ≤ hi)
+    (out : hi < mn ∨ mx < lo) : fileCopies lo hi mn mx = 0 := by
+  unfold fileCopies
+  by_cases hA : fileFiltered lo hi mn mx = true <;> by_cases hB : filePlain lo hi mn mx = true <;>
+    simp only [hA, hB, if_true, if_false, Bool.false_eq_true] <;>
+    simp only [fileFiltered, filePlain, Gen.C18.fileFiltered, Gen.C18.filePlain, Bool.or_eq_true, Bool.not_eq_true', Bool.not_eq_eq_eq_not, Bool.not_true, decide_eq_false_iff_not, Bool.and_eq_true, decide_eq_true_eq] at hA hB <;> omega
+
+/-- **The pinned tree's test streamed a file twice** exactly when its range equals the window:
+the witness the correspondence found (replays/corpus/C18-export-exact-range-twice.json). -/
+theorem old_export_streams_twice :
+    (if fileFilteredOld 1000 5000 1000 5000 then 1 else 0) + (if filePlain 1000 5000 1000 5000 then 1 else 0) = 2 := by
+  decide
+
+theorem old_export_twice_iff (lo hi mn mx : Int) :
+    (fileFilteredOld lo hi mn mx = true ∧ filePlain lo hi mn mx = true) ↔ (mn = lo ∧ mx = hi) := by
+  unfold fileFilteredOld
+  simp only [filePlain, Gen.C18.filePlain, Bool.or_eq_true, Bool.and_eq_true, decide_eq_true_eq]
+  constructor
+  · intro h; omega
+  · intro h; omega
+
 /-! ### Non-vacuity -/
 
 example : ([[(1, 'a'), (3, 'b')], [(5, 'c'), (7, 'd')], [(9, 'e')]] : List (List (TV Char))).filter (exportKeeps 4 6)
     = [[(5, 'c'), (7, 'd')]] := by decide
+
+example : fileCopies 1000 5000 1000 5000 = 1 ∧ fileCopies 1000 5000 0 9000 = 1 ∧ fileCopies 1000 5000 2000 3000 = 1
+    ∧ fileCopies 1000 5000 6000 7000 = 0 := by decide
 
 end InfluxVerif.Compact
